@@ -4,7 +4,7 @@ import Gbo.Proofs.FieldsOp
   Towards "the four sweeps of one operand pair build the same subdivision" (C05): `stripResult` pushed through
   the parts of the sweep that do not depend on the operation.  They neither read nor write `result_transition`
   / `prev_in_result`, so they commute with forgetting them (`sA`, `sSw`).  Done so far: the two orders,
-  `divide_segment`.  Not done: `possible_intersection`, the loop.
+  `divide_segment`, `possible_intersection` with its overlap branch.  Not done: the loop.
 -/
 namespace Gbo
 
@@ -88,5 +88,109 @@ theorem sA_divideSegment (ar : Arith) (cfg : Cfg) (st : SwSt) (seL : Nat) (p : P
         split
         · simp [exMap, throw, throwThe, MonadExceptOf.throw, bind, Except.bind]
         · simp [exMap, pure, Except.pure, sSw]
+
+/-! ### possible_intersection -/
+
+theorem sA_overlapEvents (a : Arena) (se1 o1 se2 o2 : Nat) :
+    overlapEvents (sA a) se1 o1 se2 o2 = overlapEvents a se1 o1 se2 o2 := by
+  unfold overlapEvents
+  simp only [sA_get, sA_cmpEv]
+  rfl
+
+theorem sA_markCoincident (a : Arena) (se1 se2 : Nat) :
+    markCoincident (sA a) se1 se2 = sA (markCoincident a se1 se2) := by
+  unfold markCoincident
+  simp only
+  have e : (sA a).modify se2 (fun ev => { ev with edgeType := .nonContributing }) =
+      sA (a.modify se2 (fun ev => { ev with edgeType := .nonContributing })) :=
+    (sA_modify_edgeType a se2 _).symm
+  rw [e, sA_get, sA_get]
+  exact (sA_modify_edgeType _ _ _).symm
+
+def sRes (r : Nat × SwSt) : Nat × SwSt := (r.1, sSw r.2)
+
+theorem sSw_arena (st : SwSt) : (sSw st).arena = sA st.arena := rfl
+
+theorem sA_overlapBranch (ar : Arith) (cfg : Cfg) (st : SwSt) (se1 o1 se2 o2 : Nat) :
+    overlapBranch ar cfg (sSw st) se1 o1 se2 o2 = exMap sRes (overlapBranch ar cfg st se1 o1 se2 o2) := by
+  have hpt : ∀ e : Ev, (stripResult e).point = e.point := fun _ => rfl
+  have hsub : ∀ e : Ev, (stripResult e).isSubject = e.isSubject := fun _ => rfl
+  have hoth : ∀ e : Ev, (stripResult e).other = e.other := fun _ => rfl
+  unfold overlapBranch
+  simp only [sSw_arena, sA_overlapEvents, sA_get, hpt, hsub]
+  split
+  · rfl
+  · split
+    · rw [sA_markCoincident, sA_get]
+      simp only [hpt]
+      have key := sA_divideSegment ar cfg ({ st with arena := markCoincident st.arena se1 se2 })
+        ((overlapEvents st.arena se1 o1 se2 o2)[1]!.2)
+        ((markCoincident st.arena se1 se2)[(overlapEvents st.arena se1 o1 se2 o2)[0]!.1]!.point)
+      split
+      · change (divideSegment ar cfg (sSw { st with arena := markCoincident st.arena se1 se2 }) _ _ >>= _) = _
+        rw [key]
+        cases divideSegment ar cfg { st with arena := markCoincident st.arena se1 se2 } _ _ <;> rfl
+      · rfl
+    · split
+      · rw [sA_divideSegment]
+        cases divideSegment ar cfg st _ _ <;> rfl
+      · split
+        · rw [sA_divideSegment]
+          cases hd1 : divideSegment ar cfg st _ _ with
+          | error e => rfl
+          | ok st1 =>
+            simp only [exMap, bind, Except.bind]
+            rw [sA_divideSegment]
+            cases divideSegment ar cfg st1 _ _ <;> rfl
+        · rw [sA_divideSegment]
+          cases hd1 : divideSegment ar cfg st _ _ with
+          | error e => rfl
+          | ok st1 =>
+            simp only [exMap, bind, Except.bind, sSw_arena, sA_get, hoth]
+            cases st1.arena[(overlapEvents st.arena se1 o1 se2 o2)[3]!.1]!.other with
+            | none => rfl
+            | some o =>
+              simp only
+              rw [sA_divideSegment]
+              cases divideSegment ar cfg st1 _ _ <;> rfl
+
+/-- `possible_intersection` neither reads nor writes the fields the operation decides -/
+theorem sA_possibleIntersection (ar : Arith) (cfg : Cfg) (st : SwSt) (se1 se2 : Nat) :
+    possibleIntersection ar cfg (sSw st) se1 se2 = exMap sRes (possibleIntersection ar cfg st se1 se2) := by
+  have hpt : ∀ e : Ev, (stripResult e).point = e.point := fun _ => rfl
+  have hoth : ∀ e : Ev, (stripResult e).other = e.other := fun _ => rfl
+  unfold possibleIntersection
+  simp only [sSw_arena, sA_get, hpt, hoth]
+  cases st.arena[se1]!.other with
+  | none => rfl
+  | some o1 =>
+    cases st.arena[se2]!.other with
+    | none => rfl
+    | some o2 =>
+      simp only
+      cases hi : ar.isect st.arena[se1]!.point st.arena[o1]!.point st.arena[se2]!.point st.arena[o2]!.point with
+      | nonfinite => rfl
+      | none => rfl
+      | overlap p q => exact sA_overlapBranch ar cfg st se1 o1 se2 o2
+      | point inter =>
+        simp only
+        split
+        · rfl
+        · simp only [ne_eq]
+          split
+          · rw [sA_divideSegment]
+            cases hd1 : divideSegment ar cfg st se1 inter with
+            | error e => rfl
+            | ok st1 =>
+              simp only [exMap, bind, Except.bind]
+              split
+              · rw [sA_divideSegment]
+                cases divideSegment ar cfg st1 se2 inter <;> rfl
+              · rfl
+          · simp only [pure, Except.pure, bind, Except.bind]
+            split
+            · rw [sA_divideSegment]
+              cases divideSegment ar cfg st se2 inter <;> rfl
+            · rfl
 
 end Gbo
